@@ -360,7 +360,7 @@ func genRWMutex(repo string) []byte {
 	f := parseFile(filepath.Join(repo, "rwmutex.go"))
 	var b strings.Builder
 	b.WriteString("-- GENERATED by /verif/translator from /repo/rwmutex.go. DO NOT EDIT.\n")
-	b.WriteString("import LiteFSVerif.Base.RWCell\n\nnamespace LiteFSVerif.Gen.RWMutex\nopen LiteFSVerif\n\n")
+	b.WriteString("import LiteFSVerif.Base.RWCell\nset_option linter.unusedVariables false\n\nnamespace LiteFSVerif.Gen.RWMutex\nopen LiteFSVerif\n\n")
 
 	// state(): method on *RWMutex
 	fd := findFunc(f, "RWMutex", "state")
@@ -422,6 +422,24 @@ func genRWMutex(repo string) []byte {
 			return true
 		})
 		fmt.Fprintf(&b, "def wrapperCalls_%s : Nat := %d\n", w[0], n)
+	}
+	// The blocking variants Lock/RLock: which try-function is called on the fast path and in the
+	// retry loop (in source order).
+	for _, w := range []string{"Lock", "RLock"} {
+		fd := findFunc(f, "RWMutexGuard", w)
+		if fd == nil {
+			fatalf("rwmutex.go: %s not found", w)
+		}
+		var calls []string
+		ast.Inspect(fd.Body, func(nd ast.Node) bool {
+			if call, ok := nd.(*ast.CallExpr); ok {
+				if p, ok := selPath(call.Fun); ok && strings.HasPrefix(p, "g.Try") {
+					calls = append(calls, fmt.Sprintf("%q", strings.TrimPrefix(p, "g.")))
+				}
+			}
+			return true
+		})
+		fmt.Fprintf(&b, "def blockingCalls_%s : List String := [%s]\n", w, strings.Join(calls, ", "))
 	}
 	b.WriteString("\nend LiteFSVerif.Gen.RWMutex\n")
 	return []byte(b.String())
